@@ -363,7 +363,8 @@ class Bin(Factory, Container):
         """
         if self.under(x) or self.over(x) or self.nan(x):
             return -1
-        return int(math.floor(self.num * (x - self.low) / (self.high - self.low)))
+        # floating point rounding can yield num for x just below high; such x belongs to the last bin
+        return min(int(math.floor(self.num * (x - self.low) / (self.high - self.low))), self.num - 1)
 
     def under(self, x):
         """Return ``true`` iff ``x`` is in the underflow region (less than ``low``)."""
@@ -454,12 +455,15 @@ class Bin(Factory, Container):
                 value.fill(None, float(hi))
 
         else:
+            inrange = q < self.high
             q = np.array(q, dtype=np.float64)
             np.subtract(q, self.low, q)
             np.multiply(q, self.num, q)
             np.divide(q, self.high - self.low, q)
             np.floor(q, q)
             q = np.array(q, dtype=int)
+            # floating point rounding can yield num for x just below high; such x belongs to the last bin
+            q[np.logical_and(inrange, q >= self.num)] = self.num - 1
 
             for index, value in enumerate(self.values):
                 np.not_equal(q, index, selection)
